@@ -562,6 +562,10 @@ class MasterDriver:
         z = self.z
         for path in (z.SERVER_PRESENCE, z.SCHEDULED, z.EVENTS, z.BLACKEDOUT_SERVERS):
             self.delivered[path] = self.srv.children(path)
+        # events queued while no master was running are still in /events: the children watch a new
+        # master attaches delivers them first thing (attach_watchers' initial callback)
+        if self.delivered[z.EVENTS]:
+            self.delivered[z.EVENTS] = None
         # arrival order after a restart is the order apps are listed in
         self.batch += 1
         for i, n in enumerate(self.srv.children(z.SCHEDULED)):
